@@ -43,6 +43,48 @@ var factUnits = []FactUnit{
 		Tracked: []string{"summary.*", "totalLines", "groupCount", "linesInThousands", "groupDensity"},
 	},
 	{
+		Name:    "LoopCx",
+		File:    "service/complexity_service.go",
+		Funcs:   []string{"Analyze"},
+		Tracked: []string{"errors", "warnings", "allFunctions", "allFiles", "allClasses", "allFragments", "filesProcessed", "filesAnalyzed", "functions, fileWarnings, fileErrors", "fileResult, fileWarnings, fileErrors", "classes, fileWarnings, fileErrors"},
+		Loops:   true,
+	},
+	{
+		Name:    "LoopDead",
+		File:    "service/dead_code_service.go",
+		Funcs:   []string{"Analyze"},
+		Tracked: []string{"errors", "warnings", "allFunctions", "allFiles", "allClasses", "allFragments", "filesProcessed", "filesAnalyzed", "functions, fileWarnings, fileErrors", "fileResult, fileWarnings, fileErrors", "classes, fileWarnings, fileErrors"},
+		Loops:   true,
+	},
+	{
+		Name:    "LoopCBO",
+		File:    "service/cbo_service.go",
+		Funcs:   []string{"Analyze"},
+		Tracked: []string{"errors", "warnings", "allFunctions", "allFiles", "allClasses", "allFragments", "filesProcessed", "filesAnalyzed", "functions, fileWarnings, fileErrors", "fileResult, fileWarnings, fileErrors", "classes, fileWarnings, fileErrors"},
+		Loops:   true,
+	},
+	{
+		Name:    "LoopLCOM",
+		File:    "service/lcom_service.go",
+		Funcs:   []string{"Analyze"},
+		Tracked: []string{"errors", "warnings", "allFunctions", "allFiles", "allClasses", "allFragments", "filesProcessed", "filesAnalyzed", "functions, fileWarnings, fileErrors", "fileResult, fileWarnings, fileErrors", "classes, fileWarnings, fileErrors"},
+		Loops:   true,
+	},
+	{
+		Name:    "LoopClone",
+		File:    "service/clone_service.go",
+		Funcs:   []string{"DetectClonesInFiles"},
+		Tracked: []string{"errors", "warnings", "allFunctions", "allFiles", "allClasses", "allFragments", "filesProcessed", "filesAnalyzed", "functions, fileWarnings, fileErrors", "fileResult, fileWarnings, fileErrors", "classes, fileWarnings, fileErrors"},
+		Loops:   true,
+	},
+	{
+		Name:    "LoopMain",
+		File:    "cmd/pyscn/main.go",
+		Funcs:   []string{"main"},
+		Tracked: []string{"errors", "warnings", "allFunctions", "allFiles", "allClasses", "allFragments", "filesProcessed", "filesAnalyzed", "functions, fileWarnings, fileErrors", "fileResult, fileWarnings, fileErrors", "classes, fileWarnings, fileErrors"},
+		Loops:   true,
+	},
+	{
 		Name:    "CxSummaryFacts",
 		File:    "service/complexity_service.go",
 		Funcs:   []string{"filterFunctions", "generateSummary", "calculateRiskLevel"},
@@ -176,6 +218,12 @@ func genFacts(l *Loader, u FactUnit, outdir string) error {
 			case *ast.BranchStmt:
 				if u.Loops {
 					facts = append(facts, x.Tok.String())
+				}
+			case *ast.ExprStmt:
+				if u.Loops {
+					if t := nodeText(fset, x.X); strings.HasPrefix(t, "os.Exit(") || strings.HasPrefix(t, "panic(") {
+						facts = append(facts, "call: "+t)
+					}
 				}
 			case *ast.SwitchStmt:
 				if x.Tag != nil {
